@@ -113,6 +113,9 @@ func (e *Effects) externalMust(fn *ssa.Function) *MustSummary {
 	es := e.externalSummary(fn, Callee{Pkg: fnPkgPath(fn), Name: fn.Name()})
 	inRepo := strings.HasPrefix(fnPkgPath(fn), modPath)
 	for l := range es.Reads {
+		if fnPkgPath(fn) == "math/big" && l.Root == 0 && fn.Signature.Recv() != nil && !bigGetter[fn.Name()] {
+			continue // the receiver of a defining math/big method is overwritten, not read
+		}
 		s.UER[l] = token.NoPos
 	}
 	if inRepo || fnPkgPath(fn) == "math/big" {
